@@ -182,3 +182,15 @@ for _ty, _st, _ls in (("SUPERSCRIPT", 0, (1, 1, 2)), ("SUPERSCRIPT", 0, (1, 1, 3
 # ---- token_chain_accept: the cursor primitive (loop-free, every input) ---------------------------------------
 U("chain_accept", ["C15", "C01"], "h_chain_accept", ["C15/chain_accept.c"], ["token.c", "char.c"], enforce="token_chain_accept", lib=(),
   callees={}, native={"repo": ["token.c", "char.c", "object_pool.c", "stack.c"]}, min_obligations=5)
+_CH_NATIVE = {"repo": ["token.c", "char.c", "object_pool.c", "stack.c"]}
+for _ar in (2, 3):
+    U("chain_accept_multiple_%d" % _ar, ["C15", "C01"], "h_accept_multiple", ["C15/chain_accept.c"], ["token.c", "char.c"], plain=True, lib=(), kind="bounded",
+      defines=["-DARITY=%d" % _ar], bounds={"arity (every call site in /repo uses 2 or 3)": _ar, "chain length<=": 4, "unwind": 6},
+      cbmc_flags=["--unwind", "6", "--unwinding-assertions"], functions=["token_chain_accept_multiple", "token_chain_accept"],
+      callees={"token_chain_accept": "body (contract: unit chain_accept)", "va_arg": "CBMC built-in"}, native=_CH_NATIVE, min_obligations=5, cost=3)
+U("chain_skip_until", ["C15", "C01"], "h_skip_until", ["C15/chain_accept.c"], ["token.c", "char.c"], plain=True, lib=(), kind="bounded",
+  bounds={"chain length<=": 4, "unwind": 6}, cbmc_flags=["--unwind", "6", "--unwinding-assertions"], functions=["token_skip_until_type"],
+  callees={}, native=_CH_NATIVE, min_obligations=5, cost=3)
+U("chain_skip_until_multiple", ["C15", "C01"], "h_skip_until_multiple", ["C15/chain_accept.c"], ["token.c", "char.c"], plain=True, lib=(), kind="bounded",
+  bounds={"arity (the one call site in /repo)": 2, "chain length<=": 4, "unwind": 6}, cbmc_flags=["--unwind", "6", "--unwinding-assertions"], functions=["token_skip_until_type_multiple"],
+  callees={"va_arg": "CBMC built-in"}, native=_CH_NATIVE, min_obligations=5, cost=3)
